@@ -72,6 +72,7 @@ class Block:
         self.stmts = {}
         self.exit = []
         self.tailfrom = None
+        self.tailafter = False
         self.addparams = []
         self.loopstart = {}
         self.loopend = {}       # anchors of statements to drop (logged)
@@ -170,6 +171,10 @@ def parse_template(path):
             section = cur.exit
         elif word == 'tailfrom':
             cur.tailfrom = BT.findall(rest)[0]
+            cur.tailafter = False
+        elif word == 'tailafter':
+            cur.tailfrom = BT.findall(rest)[0]
+            cur.tailafter = True
         elif word == 'addparam':
             cur.addparams.append(rest.strip())
         elif word == 'stmt':
@@ -441,10 +446,14 @@ def extract_fn(repo, blk, meta, mode):
             e = X.stmt_end(body, k)
             k = X._next_sig(body, e)
         cut = None
-        for st in starts:
+        for n_st, st in enumerate(starts):
             sig = [t.text for t in body[st:] if t.kind not in ('ws', 'comment')][:len(atoks)]
             if sig == atoks:
-                cut = st
+                if blk.tailafter:
+                    # the tail starts with the statement that FOLLOWS the anchored one (e.g. everything after the `loop { select! .. }`)
+                    cut = starts[n_st + 1] if n_st + 1 < len(starts) else None
+                else:
+                    cut = st
                 break
         if cut is None:
             raise X.LostAnchor('%s::%s: tail anchor `%s` not found among the top-level statements' % (rel, kv['name'], blk.tailfrom))
